@@ -298,7 +298,10 @@ def run(ctx):
     import minecraft.networking.connection as C
     for trial in range(ctx.scale(6, 40)):
         cont = trial % 2 == 1      # the server goes on (encrypted) right after the response, in the same batch
-        cfg = {'version': 757, 'script': [('encrypt', 'srv', b'tok%d' % trial)] +
+        # (sometimes a plugin request precedes the encryption request in the same batch: its queued answer
+        # must not get ahead of the forced, plaintext encryption response)
+        cfg = {'version': 757, 'script': ([('plugin', 7, 'ch', b'x')] if trial % 5 == 4 else []) +
+               [('encrypt', 'srv', b'tok%d' % trial)] +
                ([('compress', 64)] * (trial % 4 == 3) + [('success',), ('keepalive', 77 + trial)] if cont else []),
                'rsa': rng.choice(['1024', '2048'])}
         if cont and trial % 3 == 0:
@@ -420,17 +423,23 @@ def run(ctx):
                               key={'rsa': name, 'token_len': tl})
     # ---- the shared secret is ONE fresh 16-byte draw per call
     draws = []
-    real = E.os.urandom
+    import os as _os
+    import random as _random
+    real = _os.urandom
 
     def spy(n):
         r = real(n)
         draws.append((n, r))
         return r
-    E.os.urandom = spy
+    _os.urandom = spy            # the os module itself: whatever name the library reaches it by
     try:
-        secrets = [E.generate_shared_secret() for _ in range(64)]
+        secrets = []
+        for k in range(64):
+            if k % 8 == 0:
+                _random.seed(1234)          # a process that seeds `random` must not get repeated secrets
+            secrets.append(E.generate_shared_secret())
     finally:
-        E.os.urandom = real
+        _os.urandom = real
     ctx.case(('secret-draws',))
     if [n for n, _ in draws] != [16] * 64 or [r for _, r in draws] != secrets \
             or any(len(s) != 16 for s in secrets) or len(set(secrets)) != 64:
